@@ -340,7 +340,11 @@ impl<'a> HeaderValueEncoder<'a> {
 
     fn format(mut self, words_iter: impl Iterator<Item = &'a str>) -> fmt::Result {
         for next_word in words_iter {
-            let allowed = allowed_str(next_word);
+            // Blanks between two words that need encoding must be part of the
+            // encoded text: a reader drops white space between adjacent encoded-words
+            let blanks_inside_encoded =
+                !self.encode_buf.is_empty() && next_word.bytes().all(|c| c == b' ');
+            let allowed = allowed_str(next_word) && !blanks_inside_encoded;
 
             if allowed {
                 // This word only contains allowed characters
